@@ -224,7 +224,6 @@ impl SstCursor {
     spec fn bs(&self) -> Seq<Seq<Ent>> { self.table.blocks() }
     spec fn nb(&self) -> int { self.table.blocks().len() as int }
 
-    // ASSUMED: partition_point over the dividers (sorted ascending by table_ok)
 //@ extract sst/src/lib.rs | impl SstCursor<W> :: fn new
 //@ ret r
 //@ rewrite-re? X4 `table: Sst<W>` => `table: Sst`
@@ -235,6 +234,7 @@ impl SstCursor {
         r.wf(), r.pos() == -1, r.table == table,
 //@ >>
 //@ end
+    // ASSUMED: partition_point over the dividers (sorted ascending by table_ok)
 //@ extract sst/src/lib.rs | impl SstCursor<W> :: fn seek_index
 //@ ret r
 //@ pre <<
